@@ -10,7 +10,7 @@ from fibertree import Metrics
 from fibertree.model import Compute
 
 from .. import kernels as K
-from .. import model, observe
+from .. import observe
 from ..core import Part, Violation
 
 ID = "C15"
